@@ -1,0 +1,47 @@
+// SPDX-License-Identifier: Apache-2.0
+
+//! Verification hooks, compiled only with the `verif-hooks` cargo feature.
+//!
+//! Nothing in here changes behaviour: `hold()` is a no-op unless an external test controller
+//! has been registered, and the `*_hdr_is_valid()` helpers only expose the validators of the
+//! crate-private header types.
+
+use std::sync::{Arc, RwLock};
+
+use vm_memory::ByteValued;
+
+use super::gpu_message::{GpuBackendReq, VhostUserGpuMsgHeader};
+use super::message::{BackendReq, FrontendReq, VhostUserMsgHeader, VhostUserMsgValidator};
+
+/// Callback invoked at every hold point with the name of the point.
+pub type Controller = Arc<dyn Fn(&'static str) + Send + Sync>;
+
+static CONTROLLER: RwLock<Option<Controller>> = RwLock::new(None);
+
+/// Register (or clear) the controller called at hold points.
+pub fn set_controller(ctl: Option<Controller>) {
+    *CONTROLLER.write().unwrap() = ctl;
+}
+
+/// Named hold point: calls the registered controller, if any.
+pub fn hold(name: &'static str) {
+    let ctl = CONTROLLER.read().unwrap().clone();
+    if let Some(ctl) = ctl {
+        ctl(name);
+    }
+}
+
+/// Validity of a frontend-request channel header given as raw bytes.
+pub fn frontend_hdr_is_valid(bytes: &[u8; 12]) -> bool {
+    VhostUserMsgHeader::<FrontendReq>::from_slice(bytes).is_some_and(|h| h.is_valid())
+}
+
+/// Validity of a backend-request channel header given as raw bytes.
+pub fn backend_hdr_is_valid(bytes: &[u8; 12]) -> bool {
+    VhostUserMsgHeader::<BackendReq>::from_slice(bytes).is_some_and(|h| h.is_valid())
+}
+
+/// Validity of a GPU channel header given as raw bytes.
+pub fn gpu_hdr_is_valid(bytes: &[u8; 12]) -> bool {
+    VhostUserGpuMsgHeader::<GpuBackendReq>::from_slice(bytes).is_some_and(|h| h.is_valid())
+}
